@@ -446,6 +446,6 @@ RATE_LIMITS = [
 ]
 
 PARTS = [
-    Part("fit", check_fit, lambda tier: strat_fit(tier), quick=2500, thorough=60000, min_nontrivial_frac=0.3),
-    Part("order", check_order, lambda tier: strat_order(tier), quick=400, thorough=10000, min_nontrivial_frac=0.3),
+    Part("fit", check_fit, lambda tier: strat_fit(tier), quick=2500, thorough=60000, min_nontrivial_frac=0.15),
+    Part("order", check_order, lambda tier: strat_order(tier), quick=400, thorough=10000, min_nontrivial_frac=0.2),
 ]
